@@ -482,6 +482,33 @@ type DagResult struct {
 
 var dagMu sync.Mutex
 
+// the run that currently receives scheduler events; the hook itself is installed once per process
+var curRun atomic.Value
+
+func installDagHook() {
+	dag.VerifEventFn = func(gg *dag.Graph, kind string, id dag.ID, err error) {
+		r, _ := curRun.Load().(*dagRun)
+		if r == nil {
+			return
+		}
+		r.mu.Lock()
+		defer r.mu.Unlock()
+		gno, ok := r.graphs[gg]
+		if !ok || gno != 0 {
+			return // a second graph sharing the tasks, or a late goroutine of an earlier run
+		}
+		n, _ := strconv.Atoi(string(id))
+		switch kind {
+		case "recv":
+			r.rec(dagEvent{Kind: "recv", V: n, R: resOf(err)})
+		case "pickReal", "pickSkip", "pickErr", "semAcq", "lockAcq", "semRel":
+			r.rec(dagEvent{Kind: kind, V: n})
+		case "cancel", "idle", "exit":
+			r.rec(dagEvent{Kind: kind})
+		}
+	}
+}
+
 func runDagCase(c *DagCase, d *Driver) *DagResult {
 	dagMu.Lock()
 	defer dagMu.Unlock()
@@ -581,7 +608,9 @@ func runDagCase(c *DagCase, d *Driver) *DagResult {
 		return g
 	}
 	g := build("g")
+	r.mu.Lock()
 	r.graphs[g] = 0
+	r.mu.Unlock()
 	if c.Buffer {
 		g.SetOutputBuffer(recWriter{r})
 	}
@@ -691,36 +720,21 @@ func runDagCase(c *DagCase, d *Driver) *DagResult {
 	res.Class = wantPre
 	// 3. Run under the controller
 	ctl := rand.New(rand.NewSource(c.CtlSeed))
-	dag.VerifEventFn = func(gg *dag.Graph, kind string, id dag.ID, err error) {
-		gno, ok := r.graphs[gg]
-		if !ok || gno != 0 {
-			return
-		}
-		n, _ := strconv.Atoi(string(id))
-		switch kind {
-		case "recv":
-			r.mu.Lock()
-			r.rec(dagEvent{Kind: "recv", V: n, R: resOf(err)})
-			r.mu.Unlock()
-		case "pickReal", "pickSkip", "pickErr", "semAcq", "lockAcq", "semRel":
-			r.mu.Lock()
-			r.rec(dagEvent{Kind: kind, V: n})
-			r.mu.Unlock()
-		case "cancel", "idle", "exit":
-			r.mu.Lock()
-			r.rec(dagEvent{Kind: kind})
-			r.mu.Unlock()
-		}
-	}
-	defer func() { dag.VerifEventFn = nil }()
+	curRun.Store(r)
 	ctx, cancel := context.WithCancel(context.Background())
 	defer cancel()
 	runDone := make(chan error, 1)
+	var g2 *dag.Graph
+	if c.Shared && wantPre == "schedule" {
+		// registered before any Run starts: the event hook reads r.graphs from other goroutines
+		g2 = build("g2")
+		r.mu.Lock()
+		r.graphs[g2] = 1
+		r.mu.Unlock()
+	}
 	go func() { runDone <- g.Run(ctx, nil, nil) }()
 	var g2done chan error
-	if c.Shared && wantPre == "schedule" {
-		g2 := build("g2")
-		r.graphs[g2] = 1
+	if g2 != nil {
 		g2done = make(chan error, 1)
 		go func() { g2done <- g2.Run(context.WithValue(context.Background(), ctxKey("gno"), 1), nil, nil) }()
 	}
@@ -1297,6 +1311,7 @@ type DagFailure struct {
 
 func runDag(prop string, seed int64, n int, driverPath, outPath string, maxFail int, file string) int {
 	start := time.Now()
+	installDagHook()
 	d, err := startDriver(driverPath)
 	if err != nil {
 		fmt.Fprintln(os.Stderr, "cannot start driver:", err)
